@@ -408,6 +408,13 @@ def _layer_knobs(rng, l, demand, nreq, all_ok):
             parts.append("bo:%d" % rng.choice([0, 0, 5, 10]))
         if rng.random() < 0.35:
             parts.append("ro:" + rng.choice(["all", "all", "e2", "none", "e1"]))
+        # the order of the builder's setters is not a configuration: the predicate installed BEFORE the back-off setter
+        # (the order of the composition guide's consumer stack), and each of the three back-off setters
+        if rng.random() < 0.45:
+            parts.append("po:1")
+        if rng.random() < 0.4:
+            # (an exponential back-off only with few attempts: the case's `adv` budget is linear in the script's length)
+            parts.append("bk:" + rng.choice(["fn", "fn", "exp"] if parts[0] in ("ma:0", "ma:1", "ma:2", "ma:3") else ["fn"]))
         return "/".join(parts)
     if l == "fallback":
         parts = ["st:" + rng.choice(FB_STRATEGIES), "hp:" + rng.choice(FB_PREDICATES)]
@@ -451,8 +458,19 @@ def _layer_knobs(rng, l, demand, nreq, all_ok):
     if l == "reconnect":
         return rng.choice(["pol:none", "pol:none", "ma:0", "ma:0", "ma:1", "ror:0", "ma:unl", "pol:none/ma:0"])
     if l == "executor":
-        return "ex:handle"
+        # every way of telling the layer "the runtime I am built on"
+        return rng.choice(["ex:handle", "ex:new", "ex:new", "ex:cur"])
     return ""
+
+
+def _off_runtime(rng, header, layers, ops, p=0.6):
+    """Where the caller lives is not a configuration: under a stack whose OUTERMOST layer is the executor (it moves the work
+    onto the runtime it was built on; nothing above it needs a reactor) requests may be made — `poll_ready`, `call`, first
+    poll — from a plain OS thread outside any tokio context (`off=1`). Not with a time-based recovery of the scripted inner
+    service (`rec=`: ITS `poll_ready` arms a tokio timer, which legitimately needs the runtime)."""
+    if not layers or layers[0] != "executor" or " rec=" in header or rng.random() >= p:
+        return ops
+    return [o + " off=1" if o.startswith("arrive") and rng.random() < 0.7 else o for o in ops]
 
 
 def _configure(rng, layers, scripts, p, rl_ok=True, probes=0):
@@ -537,13 +555,33 @@ def gen_configured(rng):
     _drain(ops, layers, nerr)
     if kept and rng.random() < 0.5:
         ops.insert(len(ops) - 1, "release %d" % rng.choice(kept))
-    return {"header": header, "ops": ops}
+    return {"header": header, "ops": _off_runtime(rng, header, layers, ops)}
+
+
+def gen_foreign_thread(rng):
+    """a stack with the executor layer outermost, driven by callers that live outside the runtime (see `_off_runtime`): the
+    layer must carry the runtime it was built on, however it was told which one that is; below it the layers of a
+    `gen_configured` case (boundary values of their knobs), which all run on the runtime."""
+    case = gen_configured(rng)
+    header = case["header"]
+    words = header.split()
+    layers = words[1][len("layers="):].split(",")
+    ops = [o.replace(" off=1", "") for o in case["ops"]]
+    if layers[0] != "executor":
+        # (the knobs `cf<j>` are numbered by position)
+        header = re.sub(r" cf(\d+)=", lambda m: " cf%d=" % (int(m.group(1)) + 1), header)
+        layers = ["executor"] + layers
+        header = header.replace(words[1], "layers=" + ",".join(layers), 1)
+        header += rng.choice(["", " cf0=ex:new", " cf0=ex:new", " cf0=ex:cur", " cf0=ex:handle"])
+    return {"header": header, "ops": _off_runtime(rng, header, layers, ops, p=1.0)}
 
 
 def gen(rng, tier):
     r0 = rng.random()
     if 0.44 <= r0 < 0.56:
         return gen_configured(rng)
+    if 0.56 <= r0 < 0.585:
+        return gen_foreign_thread(rng)
     if 0.17 <= r0 < 0.24:
         return gen_probing_listener(rng)
     if 0.24 <= r0 < 0.30:
@@ -654,7 +692,7 @@ def gen(rng, tier):
         scripts = [kvs(o).get("inner", "0:ok").split(",") for o in ops if o.startswith("arrive")]
         header += _configure(rng, layers, scripts, 0.5, rl_ok=" rl=" not in header)
     _drain(ops, layers, nerr)
-    return {"header": header, "ops": ops}
+    return {"header": header, "ops": _off_runtime(rng, header, layers, ops)}
 
 
 # ----------------------------------------------------------------------------- configured layers
@@ -871,7 +909,8 @@ def _requests(case):
                 lat, _, out = part.partition(":")
                 steps.append((int(lat or 0), out))
             reqs[w[1]] = {"tag": k.get("tag", w[1]), "steps": steps, "how": k.get("how", "clone"),
-                          "polls": int(k.get("polls", "1")), "dropped": False, "keep": k.get("keep") == "1"}
+                          "polls": int(k.get("polls", "1")), "dropped": False, "keep": k.get("keep") == "1",
+                          "off": k.get("off") == "1"}
         elif w[0] in ("drop",) and len(w) > 1 and w[1] in reqs:
             reqs[w[1]]["dropped"] = True
         elif w[0] == "dropall":
@@ -1168,8 +1207,10 @@ def mon_readiness_contract(case, lines, meta):
             cfg0, layers0 = _cfg(case)
             return ("line %d: request %s, sent through %s, panicked — no inner call is scripted to panic: the stack itself did (a call of a "
                     "Buffer / ConcurrencyLimit instance that had not reserved capacity — `poll_ready must be called first` —, or a layer that "
-                    "cannot cope with its own configuration); the request was %s" % (
+                    "cannot cope with its own configuration%s); the request was %s" % (
                         i, w[1], describe_cfg(layers0, cfg0),
+                        ", or — this caller lives on a plain OS thread outside any tokio context (`off=1`) — an outermost executor layer "
+                        "that does not carry the runtime it was built on" if reqs.get(w[1], {}).get("off") else "",
                         "forwarded to the wrapped service" if any(tparse(x)[1][:2] == ["inner_call", w[1]] for x in lines) else "never forwarded to the wrapped service"))
     # wedged requests: only decided when the case lets every timer expire after the last arrival
     # (>= 3 rounds of `adv >= 25` + `settle`; keeps shrunk cases meaningful)
@@ -1653,6 +1694,11 @@ def config_tags(case, lines, meta, cfg, layers, reqs, res, ncalls):
     """coverage of the layers' own knobs: which boundary values were exercised, and with which kind of request"""
     tags = []
     pred = predictions(case, lines, meta)
+    for c, rq in reqs.items():
+        if rq.get("off"):
+            tags.append("caller-outside-runtime")
+            if c in pred and c in res:
+                tags.append("caller-outside-runtime-answer-predicted")
     for c, (ans, k, span, demand) in pred.items():
         tags.append("answer-predicted")
         if k > 1:
@@ -1676,6 +1722,12 @@ def config_tags(case, lines, meta, cfg, layers, reqs, res, ncalls):
                 tags.append("cfg-retry-zero-backoff")
             if "ro" in cf:
                 tags.append("cfg-retry-predicate-" + cf["ro"])
+            if "bk" in cf:
+                tags.append("cfg-retry-backoff-setter-" + cf["bk"])
+            if cf.get("po") == "1" and cf.get("ro", "e1") != "all":
+                tags.append("cfg-retry-predicate-first")
+                if any(kinds_of(c)[0] is not None and not _pred(cf.get("ro", "e1"))(kinds_of(c)[0]) for c in answered):
+                    tags.append("cfg-retry-predicate-first-rejected-error")
             accepts = _pred(cf.get("ro", "e1"))
             for c in answered:
                 ks = kinds_of(c)
@@ -1732,7 +1784,7 @@ def config_tags(case, lines, meta, cfg, layers, reqs, res, ncalls):
             if any(kinds_of(c)[0] == 1 for c in answered):
                 tags.append("cfg-reconnect-connection-failure-predicted")
         elif l == "executor":
-            tags.append("cfg-executor-handle")
+            tags.append("cfg-executor-" + cf.get("ex", "handle"))
     return tags
 
 
@@ -1767,7 +1819,9 @@ ALL_TR = (["layer-" + l for l in VARIANTS] + ["mw-" + l for l in THIRTEEN] +
            "cfg-bulkhead-one-slot-waits", "cfg-cache-one-entry", "cfg-cache-ttl-0", "cfg-cache-ttl-max", "cfg-ratelimiter-limit-reached-not-exceeded",
            "cfg-circuit-cannot-trip", "cfg-circuit-cannot-trip-failing-calls", "cfg-adaptive-fixed-limit", "cfg-chaos-no-error-fn",
            "cfg-chaos-error-fn-first", "cfg-chaos-latency-bounds", "cfg-reconnect-no-policy", "cfg-reconnect-max-attempts-0",
-           "cfg-reconnect-no-retry", "cfg-reconnect-connection-failure-predicted", "cfg-executor-handle"])
+           "cfg-reconnect-no-retry", "cfg-reconnect-connection-failure-predicted", "cfg-executor-handle", "cfg-executor-new",
+           "cfg-executor-cur", "cfg-retry-backoff-setter-fn", "cfg-retry-backoff-setter-exp", "cfg-retry-predicate-first",
+           "cfg-retry-predicate-first-rejected-error", "caller-outside-runtime", "caller-outside-runtime-answer-predicted"])
 
 LEVEL_NOTE = ("Trusted: Lean kernel; the transcription of each layer's call path as a transducer between boundary event streams in "
               "TR.Model.Stack (validated only by the sampled correspondence check); tower's BoxCloneService / MapErr adapters and the Tap "
@@ -1865,7 +1919,10 @@ SPECS = {
                       "last invocation. TRANSPARENCY: TR.Stack.denote says what a stack of layers IN GIVEN CONFIGURATIONS makes of one request with given inner "
                       "outcomes (answer + number of inner calls); {retry_without_retries_is_transparent,retry_attempts_bounded_last_answer,retry_exhausts_attempts,"
                       "fallback_success_passes,fallback_rejected_error_passes_unchanged,fallback_accepted_error_gets_strategy,hedge_without_room_forwards_once,"
-                      "hedge_not_due_is_transparent,unreachable_limit_is_transparent,reconnect_without_reconnects_forwards_once} are the per-layer facts, "
+                      "hedge_not_due_is_transparent,unreachable_limit_is_transparent,reconnect_without_reconnects_forwards_once,"
+                      "retry_rejected_error_passes_unchanged,retry_success_passes,retry_configuration_is_order_free (the order of the builder's setters "
+                      "and the choice of back-off setter are not a configuration),executor_is_transparent_however_built (no protective condition, "
+                      "whichever constructor and wherever the caller's thread lives)} are the per-layer facts, "
                       "untriggered_stack_is_transparent the induction over ANY list of layers: forwarded exactly once, that call's answer inside exactly the "
                       "pass-through variants. Over the OBSERVED log with answer events (acceptor RSt, conditional on acceptance like the contract theorems): "
                       "{layer_forwards_at_most_once,answers_never_outnumber_calls,layer_answer_made_of_inner_answer,passthrough_answer_is_inner_answer,"
